@@ -261,7 +261,9 @@ def _check_case(case, res):
     for dbg in case.debug_modes:
         m, d = machines[dbg]
         goal = T.xor(fails_by_mode[dbg], f_spec)
-        r, model = solver.check(goal)
+        if goal.op == "c":
+            res["closed_by_rewriting"] = res.get("closed_by_rewriting", 0) + 1
+        r, model = solver.check(goal, abstract=True)
         res["queries"] += 1
         if r == "unknown":
             return {"status": "inconclusive", "detail": "solver: %s" % str(model)[:300]}
@@ -274,7 +276,9 @@ def _check_case(case, res):
     if len(case.debug_modes) == 2:
         # behaviour neutrality of debug symbols follows from the two equalities; assert it directly too
         goal = T.xor(fails_by_mode[False], fails_by_mode[True])
-        r, model = solver.check(goal)
+        if goal.op == "c":
+            res["closed_by_rewriting"] = res.get("closed_by_rewriting", 0) + 1
+        r, model = solver.check(goal, abstract=True)
         res["queries"] += 1
         if r != "unsat":
             return {"status": "inconclusive" if r == "unknown" else "violation", "detail": "debug/plain differ", "kind": "neutrality"}
@@ -284,16 +288,40 @@ def _check_case(case, res):
         m, d = machines[dbg]
         f_impl = fails_by_mode[dbg]
         points = []
-        r1, mod1 = solver.check(f_impl)
-        res["queries"] += 1
-        res["can_fail"] = (r1 == "sat")
-        if r1 == "sat":
-            points.append((mod1, True))
-        r2, mod2 = solver.check(T.not_(f_impl))
-        res["queries"] += 1
-        res["can_succeed"] = (r2 == "sat")
-        if r2 == "sat":
-            points.append((mod2, False))
+        # Reachability witnesses.  First try the cheap way: fix every witness except the "expected
+        # value" ones (EXP*) to random constants, which folds most of the term, and let the solver
+        # pick the rest; fall back to the full query (short timeout) if that does not produce both
+        # a failing and a succeeding run.
+        found = {True: None, False: None}
+        for attempt in range(3):
+            base = _random_model(m, rng, boundary=(attempt == 2))
+            partial = {k: v for k, v in base.items() if not k.startswith("w_EXP")}
+            g = T.substitute(f_impl, partial)
+            for want_fail in (True, False):
+                if found[want_fail] is not None:
+                    continue
+                r, mod = solver.check(g if want_fail else T.not_(g))
+                res["queries"] += 1
+                if r == "sat":
+                    full = dict(base)
+                    full.update(mod)
+                    found[want_fail] = full
+            if found[True] is not None and found[False] is not None:
+                break
+        for want_fail in (True, False):
+            if found[want_fail] is None:
+                r, mod = solver.check(f_impl if want_fail else T.not_(f_impl), timeout_s=20)
+                res["queries"] += 1
+                if r == "sat":
+                    found[want_fail] = mod
+                elif r == "unsat":
+                    found[want_fail] = False
+        res["can_fail"] = None if found[True] is None else bool(found[True])
+        res["can_succeed"] = None if found[False] is None else (found[False] is not False)
+        if found[True]:
+            points.append((found[True], True))
+        if found[False]:
+            points.append((found[False], False))
         points.append((_random_model(m, rng), None))
         for model, expect_fail in points:
             try:
